@@ -232,6 +232,8 @@ pub enum Script {
     Error(Box<S3Error>),
     /// sleep `ms` virtual milliseconds, then continue with the inner script
     Delay(u64, Box<Script>),
+    /// yield to the scheduler `n` times (a cooperative backend: Pending + immediate wake, no time passes), then go on
+    Yield(u8, Box<Script>),
 }
 
 pub struct Recorder {
@@ -309,6 +311,12 @@ impl Recorder {
                 Script::Error(e) => return Err(*e),
                 Script::Delay(ms, inner) => {
                     tokio::time::sleep(std::time::Duration::from_millis(ms)).await;
+                    script = *inner;
+                }
+                Script::Yield(n, inner) => {
+                    for _ in 0..n {
+                        tokio::task::yield_now().await;
+                    }
                     script = *inner;
                 }
             }
